@@ -262,6 +262,14 @@ func GenC12(seed uint64, run int) *Trace {
 		// a block that puts its section exactly at / just over the default 8 MiB section size limit
 		alpha = append(alpha, BlkSpec{Kind: "raw", Seed: 77, Size: 8<<20 - 36 + r.Intn(2)})
 	}
+	if r.Chance(1, 15) {
+		// a tiny archive (see GenC06)
+		t.Cfg.Roots = []BlkSpec{}
+		t.Cfg.StoreID = true
+		t.Cfg.CarV1 = r.Chance(2, 3)
+		t.Cfg.DataPad, t.Cfg.IndexPad, t.Cfg.MaxIdxCid = 0, 0, 0
+		alpha = []BlkSpec{{Kind: "id", Seed: 1, Size: 0}, {Kind: "id", Seed: 2, Size: 1}, {Kind: "id", Seed: 3, Size: 2}, {Kind: "id", Seed: 4, Size: 3}}
+	}
 	n := r.Range(0, 8)
 	mismatch := r.Chance(1, 3)
 	if mismatch && r.Chance(1, 2) && len(t.Cfg.Roots) >= 1 {
